@@ -372,7 +372,9 @@ def concurrent(ctx):
                     wire.extend(e[3])
             env.net.listeners.append(on_net)
             calls = [("ac", 0, "set_power", ["TURN_ON"]), ("ac", 0, "set_target_temperature", ["23.0"]), ("zone", 0, "set_damper_percentage", ["35"]),
-                     ("ac", 0, "set_mode", ["HEAT", "0"])]
+                     ("ac", 0, "set_mode", ["HEAT", "0"]), ("ac", 0, "set_quick_timer", ["ON_TIMER", "duration", "5400"]),
+                     ("ac", 0, "set_quick_timer", ["OFF_TIMER", "duration", "1800"]), ("ac", 0, "set_quick_timer", ["ON_TIMER", "time", "22:30"]),
+                     ("ac", 0, "clear_quick_timer", ["OFF_TIMER"])]
 
             async def main(env=env, state=state, pause_passes=pause_passes):
                 ok = await env.at.init()
@@ -384,8 +386,13 @@ def concurrent(ctx):
                 conn.block_writes()
                 ac = list(env.at.air_conditioners)[0]
                 zone = list(ac.zones)[0]
+                import datetime
                 ts = [loop.create_task(ac.set_power(A.AcPowerControl.TURN_ON)), loop.create_task(ac.set_target_temperature(23.0)),
-                      loop.create_task(zone.set_damper_percentage(35)), loop.create_task(ac.set_mode(A.AcMode.HEAT))]
+                      loop.create_task(zone.set_damper_percentage(35)), loop.create_task(ac.set_mode(A.AcMode.HEAT)),
+                      loop.create_task(ac.set_quick_timer(A.AcTimerType.ON_TIMER, datetime.timedelta(seconds=5400))),
+                      loop.create_task(ac.set_quick_timer(A.AcTimerType.OFF_TIMER, datetime.timedelta(seconds=1800))),
+                      loop.create_task(ac.set_quick_timer(A.AcTimerType.ON_TIMER, datetime.time(22, 30))),
+                      loop.create_task(ac.clear_quick_timer(A.AcTimerType.OFF_TIMER))]
                 for _ in range(pause_passes):
                     await asyncio.sleep(0)
                 conn.unblock_writes()
@@ -407,6 +414,10 @@ def concurrent(ctx):
             # split the byte stream the console saw into frames by the documented layout
             data = bytes(wire)
             frames, i, why = [], 0, None
+            if env.mutated:
+                t, cid, was, now = env.mutated[0]
+                why = ("bytes handed to the congested transport (%s) had become %s by the time the congestion cleared - a transport that cannot send at once "
+                       "keeps the object it was given, so this is what leaves" % (was, now))
             pre = bytes([0x55, 0x55]) if gen == 4 else bytes([0x55, 0x55, 0x55, 0xAB])
             while i < len(data):
                 if gen == 5:
@@ -438,7 +449,7 @@ def concurrent(ctx):
             if why is None:
                 st = {"id": 0, "min": fullstack.INST["acs"][0]["lo"], "max": fullstack.INST["acs"][0]["hi"]}
                 want = []
-                for (target, ident, method, args) in calls:
+                for (target, ident, method, args) in calls[:4]:          # (the two timer frames are judged by the timer family; here they count and must be whole)
                     kind, exp, ch = intended(gen, target, method, args, dict(st))
                     want.append((kind, exp, ch))
                 lines = []
@@ -452,7 +463,7 @@ def concurrent(ctx):
                         why = "no frame on the wire means %s (changes %s); frames read: %s" % (exp, sorted(ch), [g[0] for g in got])
                         break
             if why:
-                ctx.violation("C04:%d:concurrent" % gen, "AirTouch %d, four control calls in flight on a congested link (writing resumed after %d loop passes): %s (bytes on the wire %s)" % (
+                ctx.violation("C04:%d:concurrent" % gen, "AirTouch %d, eight control calls in flight on a congested link (writing resumed after %d loop passes): %s (bytes on the wire %s)" % (
                     gen, pause_passes, why, data.hex()), kind="history", level="concurrent", gen=gen, pause_passes=pause_passes, implementation_output=data.hex(), spec_verdict=why)
                 break
 
